@@ -370,8 +370,31 @@ def _pram(ctx):
             elif isinstance(t.value, ast.Attribute) and t.value.attr == "loc" and isinstance(t.slice, ast.Tuple) and \
                     const_value(t.slice.elts[1]) == "k":
                 masks.append((t.slice.elts[0], s))
+    from ..astutil import inline_single_defs
+
+    def strip_np(e):
+        while isinstance(e, ast.Call) and isinstance(e.func, ast.Attribute) and e.func.attr in ("to_numpy", "astype") or \
+                (isinstance(e, ast.Attribute) and e.attr == "values"):
+            e = e.func.value if isinstance(e, ast.Call) else e.value
+        return e
+    if len(masks) != 2 and "k" in stores:
+        # second accepted idiom: one np.select over the two masks
+        v = inline_single_defs(f.node, stores["k"].value)
+        if isinstance(v, ast.Call) and call_name(v) == "np.select" and len(v.args) >= 2 and \
+                all(isinstance(a, (ast.List, ast.Tuple)) and len(a.elts) == 2 for a in v.args[:2]):
+            dflt = next((k_.value for k_ in v.keywords if k_.arg == "default"), v.args[2] if len(v.args) > 2 else None)
+            if const_value(dflt) in (0, 0.0):
+                masks = []
+                for m_, val_ in zip(v.args[0].elts, v.args[1].elts):
+                    m2 = strip_np(m_)
+                    if isinstance(m2, ast.Compare):
+                        masks.append((m2, ast.Assign(targets=[stores["k"].targets[0]], value=val_, lineno=stores["k"].lineno)))
     if len(masks) != 2 or "discriminant" not in stores or "P_RAM" not in stores:
         raise AnalysisError("P_RAM._compute_values: k masks / discriminant / P_RAM stores not found")
+    stores = dict(stores)
+    for key_ in ("discriminant", "P_RAM"):
+        st_ = stores[key_]
+        stores[key_] = ast.Assign(targets=st_.targets, value=inline_single_defs(f.node, st_.value), lineno=st_.lineno)
 
     def atom(e):
         c = _col(e)
